@@ -1,7 +1,7 @@
 ------------------------------- MODULE KvassEval -------------------------------
 EXTENDS KvassProps, TLC, Json, IOUtils, SequencesExt
 Runs == ndJsonDeserialize("runs.ndjson")
-Viol == UNION {{[id |-> Runs[k].id, sig |-> v] : v \in C03Run(Runs[k])} : k \in DOMAIN Runs}
+Viol == UNION {{[id |-> Runs[k].id, sig |-> v] : v \in C03Run(Runs[k]) \cup C05Run(Runs[k])} : k \in DOMAIN Runs}
 ASSUME ndJsonSerialize("viol.ndjson", SetToSeq(Viol))
 ASSUME ndJsonSerialize("evalstats.ndjson", <<[runs |-> Len(Runs),
    converging |-> Cardinality({k \in DOMAIN Runs : Runs[k].expectConverge})]>>)
